@@ -220,7 +220,9 @@ fn run(args: &Args) {
                 local.push(CaseResult { profile: pi, case: c, seed: cs, trace });
             }
             let cases: Vec<&[String]> = local.iter().map(|r| r.trace.ops.as_slice()).collect();
-            match run_model(&driver, &cases) {
+            // (an implementation-only profile is a fixed one: its case is a batch of its own)
+            let drv = if local.iter().all(|r| impl_only(profiles[r.profile].name)) { "none".to_string() } else { driver.clone() };
+            match run_model(&drv, &cases) {
                 Ok(outs) => {
                     let mut m = model_out.lock().unwrap();
                     for (r, o) in local.iter().zip(outs.into_iter()) {
@@ -362,12 +364,12 @@ fn run(args: &Args) {
                         None => false,
                     }
                 };
-                let keep = (p.keep)(&r.trace.ops);
+                let keep = if liveness_signature(&fail.signature) { usize::MAX } else { (p.keep)(&r.trace.ops) };
                 let upto = (fail.at + 1).min(r.trace.ops.len());
                 let start_ops: Vec<String> = if fails(&r.trace.ops[..upto]) { r.trace.ops[..upto].to_vec() } else { r.trace.ops.clone() };
                 let min_ops = shrink(&start_ops, keep, &mut fails);
                 let imp = run_ops(nw, &min_ops);
-                let mdl = run_model(&args.driver, &[&min_ops]).map(|m| m[0].clone()).unwrap_or_default();
+                let mdl = if impl_only(p.name) { vec![] } else { run_model(&args.driver, &[&min_ops]).map(|m| m[0].clone()).unwrap_or_default() };
                 let f2 = chk(&min_ops, &imp).unwrap_or(fail.clone());
                 let mut f = Finding {
                     prop: o.prop.to_string(),
@@ -383,14 +385,18 @@ fn run(args: &Args) {
             }
         }
     }
-    let evaluations: u64 = per_profile.values().map(|v| v.0).sum();
-    let total_ops: u64 = per_profile.values().map(|v| v.1).sum();
-    let nontrivial: u64 = per_profile.values().map(|v| v.2).sum();
+    // the totals count traces that were validated against the model; implementation-only cases are listed apart
+    let modelled = |k: &&String| !impl_only(k.as_str());
+    let evaluations: u64 = per_profile.iter().filter(|(k, _)| modelled(k)).map(|(_, v)| v.0).sum();
+    let total_ops: u64 = per_profile.iter().filter(|(k, _)| modelled(k)).map(|(_, v)| v.1).sum();
+    let nontrivial: u64 = per_profile.iter().filter(|(k, _)| modelled(k)).map(|(_, v)| v.2).sum();
+    let impl_only_cases: u64 = per_profile.iter().filter(|(k, _)| !modelled(k)).map(|(_, v)| v.0).sum();
     // result json
     let mut s = String::new();
     s.push_str("{\n");
     s.push_str(&format!(" \"seed\": {},\n \"tier\": {},\n", args.seed, json_str(if args.tier == Tier::Quick { "quick" } else { "thorough" })));
     s.push_str(&format!(" \"evaluations\": {},\n \"ops\": {},\n \"distinct_nontrivial\": {},\n \"mismatches\": {},\n \"oracle_evaluations\": {},\n", evaluations, total_ops, nontrivial, mismatches, oracle_evals));
+    s.push_str(&format!(" \"impl_only_cases\": {},\n", impl_only_cases));
     s.push_str(&format!(" \"wall_s\": {:.2},\n", t0.elapsed().as_secs_f64()));
     let pp: Vec<String> = per_profile
         .iter()
@@ -451,7 +457,12 @@ fn replay(args: &Args) {
         }
     };
     let imp = run_ops(p.new_world, &ops);
-    let mdl = run_model(&args.driver, &[&ops]).map(|m| m[0].clone()).unwrap_or_default();
+    let mdl = if impl_only(p.name) {
+        println!("(profile {} runs on the implementation only: the model column repeats the implementation's answers)", p.name);
+        imp.clone()
+    } else {
+        run_model(&args.driver, &[&ops]).map(|m| m[0].clone()).unwrap_or_default()
+    };
     for i in 0..ops.len() {
         let mark = if imp.get(i) != mdl.get(i) { " <<< DIFFERS" } else { "" };
         println!("[{}] {}\n     impl : {}\n     model: {}{}", i, trunc(&ops[i], 200), trunc(&imp[i], 200), mdl.get(i).map(|s| trunc(s, 200)).unwrap_or_default(), mark);
@@ -465,6 +476,9 @@ fn replay(args: &Args) {
                     println!("oracle {} {}: FAILS on implementation at op {}: {} [{}]", o.prop, o.name, f.at, f.what, f.signature)
                 }
                 None => println!("oracle {} {}: holds on implementation trace", o.prop, o.name),
+            }
+            if impl_only(p.name) {
+                continue;
             }
             if let Some(f) = (o.check)(&ops, &mdl) {
                 println!("oracle {} {}: FAILS on model trace at op {}: {}", o.prop, o.name, f.at, f.what)
